@@ -1,7 +1,7 @@
 (* C03/Props.v — the property theorems for C03, and nothing else.
    Static.ok          the documented static rules (C03/Static.v)
    check real         the faithful model of the current walker (tied to /repo on every run)
-   check fixed        the same walker with the eight proposed patches switched on
+   check fixed        the same walker with all proposed patches switched on (elif and guard are already in [real])
    Determined         no value of a not fully inferred type is bound / matched / dereferenced
    WfDecls            declared types are ground (true of every source text) *)
 From Coq Require Import ZArith List Bool.
@@ -36,7 +36,7 @@ Print Assumptions C03_check_sound.
 (* T3  located form, induction over contexts: for every way the walker (with any switches fx)
        reaches a statement s' inside a block b — function body, then / elif / else branch, loop
        body, match-arm body, at any depth — every event it raises on s' is reported for b.
-       The elif constructor of [reach] needs fx_elif: the real walker lacks that arm. *)
+       The elif constructor of [reach] needs fx_elif, which [real] has since the repair. *)
 Theorem C03_context_propagation : forall fx G R S b S' s',
   reach fx G R S b S' s' ->
   incl (snd (check_stmt fx G R S' s')) (check_block fx G R S b).
@@ -60,15 +60,20 @@ Proof.
 Qed.
 Print Assumptions C03_violation_located_fixed.
 
-(* R1..R8  the faithful model refutes soundness: one witness per class (all replayed on /repo) *)
-Theorem C03_elif_refuted : exists pj, WfDecls pj /\ Determined pj /\ check real pj = [] /\ ~ ok pj /\ Known_C03_elif pj.
-Proof. exists w_elif. destruct w_elif_refutes as [(a & b & c & d) e]. auto. Qed.
-Print Assumptions C03_elif_refuted.
+(* G1, G2  regression witnesses of the two repaired classes: ill-typed, accepted before the
+   repair, rejected now with the diagnostic at the offending name (inside the elif condition /
+   the guard) *)
+Theorem C03_elif_regression :
+  WfDecls w_elif /\ ~ ok w_elif /\ check unrepaired w_elif = [] /\ In (KUnknown, 3) (check real w_elif).
+Proof. exact w_elif_regression. Qed.
+Print Assumptions C03_elif_regression.
 
-Theorem C03_guard_refuted : exists pj, WfDecls pj /\ Determined pj /\ check real pj = [] /\ ~ ok pj /\ Known_C03_guard pj.
-Proof. exists w_guard. destruct w_guard_refutes as [(a & b & c & d) e]. auto. Qed.
-Print Assumptions C03_guard_refuted.
+Theorem C03_guard_regression :
+  WfDecls w_guard /\ ~ ok w_guard /\ check unrepaired w_guard = [] /\ In (KUnknown, 5) (check real w_guard).
+Proof. exact w_guard_regression. Qed.
+Print Assumptions C03_guard_regression.
 
+(* R1..R6  the faithful model still refutes soundness: one witness per remaining class (all replayed on /repo) *)
 Theorem C03_nested_reassign_refuted : exists pj, WfDecls pj /\ Determined pj /\ check real pj = [] /\ ~ ok pj /\ Known_C03_outer pj.
 Proof. exists w_outer. destruct w_outer_refutes as [(a & b & c & d) e]. auto. Qed.
 Print Assumptions C03_nested_reassign_refuted.
